@@ -195,6 +195,70 @@ def r2(ctx: Ctx) -> None:
                 ok = True
     if not ok:
         ctx.report(fc.where, "node-order", "constructrobdd does not store nodes as (dvar(data), diagram of ifprop(data), diagram of elprop(data))", lineno=fc.node.lineno)
+    _both_children(ctx, fc)
+
+
+def _both_children(ctx: Ctx, fc) -> None:
+    """constructrobdd: once the construction has gone into one child it goes into the other too before it answers -- no return
+    between the two recursive constructions (a 'the if-branch is 0, so is the whole node' shortcut is wrong for negated literals
+    and for any data that is not monotone in the decision variable; seeded change C08-9).  Syntax-directed must-walk over the
+    function body: state = set of children constructed on every path so far."""
+    fn = fc.node
+    params = [a.arg for a in fn.args.posonlyargs + fn.args.args]
+    if len(params) < 6:
+        return
+    props = {params[4]: "if", params[5]: "else"}
+
+    def children(node) -> set:
+        got = set()
+        for c in ast.walk(node):
+            if isinstance(c, ast.Call) and isinstance(c.func, ast.Name) and c.func.id == fn.name and c.args:
+                a0 = c.args[0]
+                if isinstance(a0, ast.Call) and isinstance(a0.func, ast.Name) and a0.func.id in props:
+                    got.add(props[a0.func.id])
+        return got
+    if children(fn) != {"if", "else"}:
+        ctx.site(fc.where, "both children constructed before an answer: recursive constructions not spelt in this function (not evaluated)")
+        return
+    bad = []
+
+    def walk(stmts, state):
+        for st in stmts:
+            if state is None:
+                return None
+            if isinstance(st, ast.Return):
+                state = state | (children(st.value) if st.value is not None else set())
+                if state and state != {"if", "else"}:
+                    bad.append(st)
+                return None
+            if isinstance(st, ast.Raise):
+                return None
+            if isinstance(st, ast.If):
+                s0 = state | children(st.test)
+                a, b = walk(st.body, set(s0)), walk(st.orelse, set(s0))
+                state = b if a is None else a if b is None else (a & b)
+            elif isinstance(st, (ast.For, ast.While)):
+                s0 = state | children(st.iter if isinstance(st, ast.For) else st.test)
+                walk(st.body, set(s0))
+                state = s0
+            elif isinstance(st, ast.Try):
+                walk(st.body, set(state))
+                for h in st.handlers:
+                    walk(h.body, set(state))
+                r = walk(st.finalbody, set(state))
+                state = state if r is not None else None
+            elif isinstance(st, ast.With):
+                state = walk(st.body, state | children(ast.Module(body=[ast.Expr(i.context_expr) for i in st.items], type_ignores=[])))
+            elif isinstance(st, (ast.FunctionDef, ast.ClassDef)):
+                pass
+            else:
+                state = state | children(st)
+        return state
+    walk(fn.body, set())
+    ctx.site(fc.where, "no answer between the construction of the if-child and of the else-child (both children on every non-base path)")
+    for st in bad:
+        ctx.report(fc.where, "one-child-answer", f"{fc.qualname} returns after constructing only one child of the node "
+                   f"('{norm_stmt(st)[:60]}'): the other branch of the decision variable is never looked at", lineno=st.lineno)
 
 
 def _canonicity_table(block) -> bool:
